@@ -588,10 +588,13 @@ pub fn parts(thorough: bool, conditioned: bool) -> Vec<Part> {
 
 pub fn run(mut rep: Report) -> i32 {
     let thorough = rep.thorough();
-    set_deadline(thorough);
     rep.rule = "one evaluation = one attempted operation (author x group x action x declared dependency set) on a replica holding one accepted history; the real process() verdict is compared with the reference authoriser evaluated on the state at the declared dependencies; non-trivial = attempts the reference classifies as unauthorised (author not an active manager of an existing group)".into();
-    for p in parts(thorough, false) {
-        run_part::<()>(&mut rep, &p);
+    let ps = parts(thorough, false);
+    for (i, p) in ps.iter().enumerate() {
+        if part_selected(p.name) {
+            set_deadline(thorough, (i + 1) as f64 / ps.len() as f64);
+            run_part::<()>(&mut rep, p);
+        }
     }
     // A run with a conditioned access type is deliberately not part of this check: with conditions
     // the state at a set of concurrent heads is not a function of the operation set (C31/C32
